@@ -545,13 +545,23 @@ class Balancer:
         if len(shift_amount_values) != 1:
             return truism
         shift_amount = shift_amount_values[0]
+        if shift_amount == 0 or shift_amount >= len(expr):
+            return truism
+        if truism.op not in {"__eq__", "__ne__", "ULT", "ULE", "UGT", "UGE"}:
+            # undoing the shift with a logical right shift does not preserve signed order
+            return truism
+
+        # the bits shifted out of expr are lost: the shift can only be undone if they are known to be zero
+        shifted_out = expr[len(expr) - 1 : len(expr) - shift_amount]
+        if not claripy.backends.vsa.is_true(shifted_out == 0):
+            return truism
 
         rhs_lower = claripy.Extract(shift_amount - 1, 0, rhs)
         rhs_lower_values = claripy.backends.vsa.eval(rhs_lower, 2)
         if len(rhs_lower_values) == 1 and rhs_lower_values[0] == 0:
             # we can remove the __lshift__
 
-            return Bool(truism.op, (expr, rhs >> shift_amount))
+            return Bool(truism.op, (expr, claripy.LShR(rhs, shift_amount)))
 
         return truism
 
